@@ -1,9 +1,9 @@
 """C07 — slot accounting: tower model (memory = disk = wire, conservation monitor) + the f32 slot formula (slots_check)."""
 import slots_check
 import tower_common
-from props import c10
+from props import c03, c10
 
-TARGETS = ["theories/Properties/C07.v", "theories/Properties/C07_ledger.v"] + slots_check.SLOTS_TARGETS
+TARGETS = ["theories/Properties/C07.v", "theories/Properties/C07_ledger.v", "theories/Properties/C07_restart.v"] + slots_check.SLOTS_TARGETS
 MON = {"C07"}
 KNOWN = {"C107": {"kind": "balance-above-u32-max"}}
 
@@ -16,6 +16,12 @@ def run(ctx):
         # concurrent registrations / charges / refunds of one user: no slot update may be lost (controlled schedules on
         # the real tower; the recorded double charge of two identical submissions is C10's known finding)
         c10.conc_probe(ctx, "C07", {"ledger"}, case_filter=("reg", "add"))
+        # memory = disk also across a RESTART (what Gatekeeper::new reloads): the sequential tower histories have no
+        # restart, the crash harness does.  A crash run whose appointments and trackers end as in the uninterrupted run
+        # but whose users table (balances) does not, or that grants / charges more than the interrupted request, is
+        # reported here unless it is a recorded C03 finding
+        c03.crash_probe(ctx, "C07", None,
+                        only=lambda kind, detail: kind in c03.BALANCE_KINDS or detail.startswith("final-users-differ"))
     return tower_common.check(ctx, "C07", TARGETS, MON, KNOWN, allow_axioms=slots_check.SLOTS_AXIOMS,
                               extra_trusted=slots_check.SLOTS_TRUSTED, extra_run=extra)
 
